@@ -7,8 +7,10 @@ LEVEL = "fault_enumeration"
 TECHNIQUE = ("deterministic simulation with fault injection: process crash at "
              "every file-system effect boundary (open, each partial write "
              "chunk, close, rename, mkdir) of a seeded writing session, torn "
-             "writes through a chunking raw-file layer, plus a concurrent "
-             "reader task interleaved by the seeded scheduler")
+             "writes through a chunking raw-file layer, write-side I/O errors "
+             "(ENOSPC/EIO at a seeded write chunk, create, rename or mkdir; "
+             "transient or persistent) followed by Python's unwinding, plus "
+             "a concurrent reader task interleaved by the seeded scheduler")
 RULE = ("case = history of 0..2 committed sessions followed by one crashing "
         "session (root / sub-directory / multi-writer under SimPool; fb, npz, "
         "tfrec), write chunk size in {whole, 37, 64, 256, random<=100}; the "
@@ -16,7 +18,11 @@ RULE = ("case = history of 0..2 committed sessions followed by one crashing "
         "opens; reachable shards exist and match their digests; iteration "
         "returns whole, written examples and everything committed earlier) is "
         "evaluated at EVERY effect boundary of the crashing session (tfrec: "
-        "every 8th boundary, TensorFlow's writes are not chunked). Non-trivial "
+        "every 8th boundary, TensorFlow's writes are not chunked). 40% of the "
+        "cases really kill the process at a seeded instant, 20% (fb/npz) "
+        "fail the k-th fallible FS operation with ENOSPC/EIO for 1, 2 or all "
+        "following operations instead; both are followed by one more "
+        "session of a new process and the same oracle. Non-trivial "
         "= more than 5 crash instants; distinct = distinct event digest.")
 STATE_MEASURE = ("event digest = SHA-1 of scheduler trace + FS effects + "
                  "counters per run; abstract state = shape of the directory "
@@ -53,7 +59,26 @@ def gen_case(rng, tier, index):
     # in 40% of the cases the process is really killed at a seeded instant
     # (nothing it does afterwards reaches the disk) and a new process writes
     # one more session on what is left
-    if rng.random() < 0.4:
+    mode = rng.random()
+    if mode >= 0.4 and mode < 0.6 and hist["structure"]["fmt"] != "tfrec":
+        # disk full / EIO instead of a kill: a seeded fallible operation of
+        # the last session fails (once, twice, or from then on); the session
+        # unwinds through the filler's __exit__, crash points are evaluated
+        # all along, then a new process writes one more session
+        import errno
+        case["io_error"] = {
+            "at": rng.choice([1, 2, 3, 4, 6]) if rng.random() < 0.4
+            else rng.randrange(1, 80),
+            "burst": rng.choice([1, 1, 2, 10 ** 9]),
+            "errno": rng.choice([errno.ENOSPC, errno.EIO])}
+        case["crash_create"] = False
+        ids = iter(range(500000, 500100))
+        after = dsgen.gen_session(rng, ids, hist["structure"]["eps"],
+                                  ("root", "root", "sub", "multi"),
+                                  hist["splits"], ("none",), 2)
+        after["reopen"] = True
+        case["after"] = after
+    if mode < 0.4:
         case["crash_at"] = rng.choice([1, 2, 3, 5, 8]) if rng.random() < 0.3 \
             else rng.randrange(1, 200)
         ids = iter(range(500000, 500100))
@@ -95,6 +120,8 @@ def reach(agg):
                  "crashing_kind_multi", "crashing_session_first",
                  "crashing_session_continued", "reader_started_mid_session",
                  "process_killed", "session_after_restart_completed",
+                 "io_error_fired", "io_error_at_write", "io_error_at_replace",
+                 "session_raised_after_io_error",
                  "crash_points_inside_create"):
         if not p.get(name):
             need.append(f"probe {name} never hit")
